@@ -74,6 +74,23 @@ def run_observer(o, name, twin):
         return ('raised', type(e).__name__)
 
 
+def same_observable_state(o, twin, eq_is_meaningful):
+    """The object equals its earlier copy.  Equal canonical dumps decide at once; otherwise the difference may sit in
+    private, non-constructor state only (an implementation is free to cache an answer there - whether the cache
+    is *correct* is decided by the result clauses and by the edit histories (d)): then the constructor-argument
+    values must be equal and, where the class defines a meaningful ==, the library's own == must hold."""
+    if canon.dump(o) == canon.dump(twin):
+        return True
+    try:
+        if objects.value_dump(o) != objects.value_dump(twin):
+            return False
+        if eq_is_meaningful and not (o == twin):
+            return False
+    except Exception:  # noqa
+        return False
+    return True
+
+
 def check_observers(acc, o, label, wit, seq_depth):
     """Applies every available observer from the same state; invariant after every event; then all sequences of
     length <= seq_depth (validating that equal dumps imply equal futures)."""
@@ -86,12 +103,15 @@ def check_observers(acc, o, label, wit, seq_depth):
     obs = available_observers(o)
     first = {}
     cname = type(o).__name__
+    try:
+        eq_ok = type(o).__eq__ is not object.__eq__ and bool(copy.deepcopy(twin) == twin)
+    except Exception:  # noqa
+        eq_ok = False
     for name in obs:
         acc.counters['transitions'] = acc.counters.get('transitions', 0) + 1
         r = run_observer(o, name, twin)
         first[name] = r
-        d1 = canon.dump(o)
-        if d1 != d0:
+        if not same_observable_state(o, twin, eq_ok):
             dp = canon.first_diff(canon.dump(twin, eq=True), canon.dump(o, eq=True))
             acc.violation('observer_mutates:%s:%s:%s' % (_definer(o, name), name, r[0]),
                           '%s.%s() %s and left the object changed at %s' % (cname, name.strip('_'),
@@ -128,7 +148,7 @@ def check_observers(acc, o, label, wit, seq_depth):
                               '%s.%s() called twice in a row returns different results' % (cname, name.strip('_')),
                               dict(wit, observer=name, sequence=list(seq)))
                 break
-        if canon.dump(o2) != d0:
+        if not same_observable_state(o2, twin, eq_ok):
             acc.violation('observer_sequence_mutates:%s' % cname, 'after observers %s the object differs from its copy'
                           % (list(seq),), dict(wit, sequence=list(seq)))
     acc.state(core.h64(label, repr(d0)[:2000]))
